@@ -179,8 +179,6 @@ func (cw *ChainWorld) TRC(a ATRC) cppki.SignedTRC {
 	if err != nil {
 		vt.Fatal("TRC %+v does not encode: %v", a, err)
 	}
-	s := cppki.SignedTRC{}
-	_ = s
 	sis := signerInfos(raw, vw, signers)
 	dec, err := cppki.DecodeSignedTRC(CMS(raw, sis))
 	if err != nil {
